@@ -14,7 +14,7 @@ GEN = []
 LEAN = ["Ymq.Props.C19"]
 AUDIT = "Ymq.Audit.C19"
 THEOREMS = ["Ymq.C19." + t for t in (
-    "crt_symmetric crt_sparse_symmetric").split()]
+    "crt_symmetric crt_sparse_symmetric perm_sign").split()]
 HYPOTHESES = ["inv_mod64_spec (theorems crt_symmetric, crt_sparse_symmetric): arith::inv_mod64(a, p) returns Some(i) with i < p and "
               "a*i = 1 (mod p) whenever gcd(a, p) = 1 (property C08)"]
 PROFILES = ["release", "chk"]
